@@ -51,6 +51,12 @@ func checkC01(c *Ctx) {
 	c.Floor("COMMENT-STORED", 1)
 	c.parsedStored("PARSED-STORED", c.Func("io/newick", "Parser", "parseIter"), "the same lengths and supports")
 	c.Floor("PARSED-STORED", 3)
+	c.Decides("PAIR-VALID (go/cfg): a setter fed from one part of a split `support/p-value` label is dominated by the parse of every part and cannot be reached from the failure branch of any of them: a half-numeric label is a name and nothing else")
+	c.pairValid("PAIR-VALID", c.Func("io/newick", "Parser", "parseIter"), "the same lengths and supports")
+	c.Floor("PAIR-VALID", 2)
+	c.Decides("NO-UNIQ-IN-READ: the Newick Parse function does not reach Tree.UpdateTipIndex (statically resolved calls, depth 8): tip names need not be unique in the property's trees and the index refuses repeated names")
+	c.noUniqInRead("NO-UNIQ-IN-READ", []*FuncInfo{c.Func("io/newick", "Parser", "Parse")}, "reading back gives the same tree")
+	c.Floor("NO-UNIQ-IN-READ", 1)
 	c.Decides("MUST-EOT (go/cfg): the Newick Parse function reports success only after testing the token that follows the tree against EOT")
 	c.mustSeeEOT("MUST-EOT", c.Func("io/newick", "Parser", "Parse"), "reading back gives the same tree")
 	c.Floor("MUST-EOT", 1)
